@@ -126,6 +126,13 @@ func (m *svMod) initGenesis(e *lib.Env) lib.Outcome {
 	gs := servicetypes.GenesisState{Params: svGo(m.p)}
 	return e.Try(func(ctx sdk.Context) error { service.InitGenesis(ctx, *m.k[e], gs); return nil })
 }
+func (m *svMod) genesisStages(e *lib.Env) (int, int) {
+	gs := servicetypes.GenesisState{Params: svGo(m.p)}
+	vg, _ := errCode(func() error { return servicetypes.ValidateGenesis(gs) })
+	cctx, _ := e.Ctx.CacheContext()
+	sp, _ := errCode(func() error { return m.k[e].SetParams(cctx, gs.Params) })
+	return vg, sp
+}
 func (m *svMod) stored(e *lib.Env) string { return svTerm(m.k[e].GetParams(e.Ctx)) }
 
 // deposits of the bindings whose requests expire in the end-blocker of the current block, in processing order
@@ -166,13 +173,17 @@ func (m *svMod) op(e *lib.Env, st Step) (string, lib.Outcome) {
 	k := m.k[e]
 	n := func(i int) sdkmath.Int { return sdkmath.NewIntFromBigInt(bi(st.N[i])) }
 	switch st.K {
-	case "bind":
+	case "bind": // N = [provider price deposit qos (priceDenomClass)]
 		pi := 1 + int(n(0).Int64())%2
 		prov := e.Actors[pi]
 		_, exists := k.GetServiceBinding(e.Ctx, svName, prov)
-		term := lib.App("SvBind", lib.ZI(n(1)), lib.ZI(n(2)), lib.ZI(n(3)), lib.ZI(e.Balance(prov, "stake")))
+		pd := 1
+		if len(st.N) > 4 {
+			pd = int(n(4).Int64())
+		}
+		term := lib.App("SvBind", lib.ZI(n(1)), lib.ZI(n(2)), lib.ZI(n(3)), lib.ZI(e.Balance(prov, "stake")), lib.Z(int64(pd)))
 		out := e.Deliver(&servicetypes.MsgBindService{ServiceName: svName, Provider: prov.String(), Deposit: sdk.NewCoins(sdk.NewCoin("stake", n(2))),
-			Pricing: fmt.Sprintf(`{"price":"%sstake"}`, n(1).String()), QoS: n(3).Uint64(), Options: "{}", Owner: prov.String()})
+			Pricing: fmt.Sprintf(`{"price":"%s%s"}`, n(1).String(), denomStr(pd)), QoS: n(3).Uint64(), Options: "{}", Owner: prov.String()})
 		if exists {
 			term = "SvOther"
 		}
@@ -186,8 +197,12 @@ func (m *svMod) op(e *lib.Env, st Step) (string, lib.Outcome) {
 			}
 		}
 		term := lib.App("SvCall", lib.ZI(n(2)))
-		out := e.Deliver(&servicetypes.MsgCallService{ServiceName: svName, Providers: provs, Consumer: e.Actors[3].String(), Input: `{"header":{},"body":{}}`,
-			ServiceFeeCap: sdk.NewCoins(sdk.NewCoin("stake", n(1))), Timeout: n(2).Int64()})
+		call := &servicetypes.MsgCallService{ServiceName: svName, Providers: provs, Consumer: e.Actors[3].String(), Input: `{"header":{},"body":{}}`,
+			ServiceFeeCap: sdk.NewCoins(sdk.NewCoin("stake", n(1))), Timeout: n(2).Int64()}
+		if len(st.N) > 4 { // repeated context
+			call.Repeated, call.RepeatedFrequency, call.RepeatedTotal = true, n(3).Uint64(), n(4).Int64()
+		}
+		out := e.Deliver(call)
 		if out.OK() {
 			id, _ := hex.DecodeString(out.Resp.(*servicetypes.MsgCallServiceResponse).RequestContextId)
 			m.ctxs[e] = append(m.ctxs[e], id)
@@ -211,33 +226,55 @@ func (m *svMod) op(e *lib.Env, st Step) (string, lib.Outcome) {
 		out := e.Deliver(&servicetypes.MsgRespondService{RequestId: rq.id.String(), Provider: rq.provider.String(),
 			Result: `{"code":200,"message":""}`, Output: `{"header":{},"body":{}}`})
 		return term, out
-	// operations executed under both sets but not modelled (term SvOther): only the abort clause applies
-	case "update_binding": // adds to the deposit, changes the QoS
+	case "update_binding": // N = [provider add qos]: adds to the deposit, changes the QoS
 		prov := e.Actors[1+int(n(0).Int64())%2]
-		return "SvOther", e.Deliver(&servicetypes.MsgUpdateServiceBinding{ServiceName: svName, Provider: prov.String(),
+		b, exists := k.GetServiceBinding(e.Ctx, svName, prov)
+		term := "SvOther"
+		if exists {
+			term = lib.App("SvUpdate", lib.B(b.Available), lib.ZI(k.GetPricing(e.Ctx, svName, prov).Price.AmountOf("stake")),
+				lib.ZI(b.Deposit.AmountOf("stake")), lib.ZI(n(1)), lib.ZI(n(2)), lib.ZI(e.Balance(prov, "stake")))
+		}
+		return term, e.Deliver(&servicetypes.MsgUpdateServiceBinding{ServiceName: svName, Provider: prov.String(),
 			Deposit: sdk.NewCoins(sdk.NewCoin("stake", n(1))), QoS: n(2).Uint64(), Owner: prov.String()})
-	case "disable":
+	case "disable": // no parameter is read: SvOther
 		prov := e.Actors[1+int(n(0).Int64())%2]
 		return "SvOther", e.Deliver(&servicetypes.MsgDisableServiceBinding{ServiceName: svName, Provider: prov.String(), Owner: prov.String()})
-	case "enable":
+	case "enable": // N = [provider add]
 		prov := e.Actors[1+int(n(0).Int64())%2]
-		return "SvOther", e.Deliver(&servicetypes.MsgEnableServiceBinding{ServiceName: svName, Provider: prov.String(),
+		b, exists := k.GetServiceBinding(e.Ctx, svName, prov)
+		term := "SvOther"
+		if exists {
+			term = lib.App("SvEnable", lib.B(b.Available), lib.ZI(k.GetPricing(e.Ctx, svName, prov).Price.AmountOf("stake")),
+				lib.ZI(b.Deposit.AmountOf("stake")), lib.ZI(n(1)), lib.ZI(e.Balance(prov, "stake")))
+		}
+		return term, e.Deliver(&servicetypes.MsgEnableServiceBinding{ServiceName: svName, Provider: prov.String(),
 			Deposit: sdk.NewCoins(sdk.NewCoin("stake", n(1))), Owner: prov.String()})
 	case "refund":
 		prov := e.Actors[1+int(n(0).Int64())%2]
-		return "SvOther", e.Deliver(&servicetypes.MsgRefundServiceDeposit{ServiceName: svName, Provider: prov.String(), Owner: prov.String()})
-	case "withdraw":
+		b, exists := k.GetServiceBinding(e.Ctx, svName, prov)
+		term := "SvOther"
+		if exists && len(b.Deposit) <= 1 {
+			term = lib.App("SvRefund", lib.B(b.Available), lib.ZI(b.Deposit.AmountOf("stake")), lib.Z(b.DisabledTime.UnixNano()), lib.Z(e.Time.UnixNano()))
+		}
+		return term, e.Deliver(&servicetypes.MsgRefundServiceDeposit{ServiceName: svName, Provider: prov.String(), Owner: prov.String()})
+	case "withdraw": // no parameter is read: SvOther
 		prov := e.Actors[1+int(n(0).Int64())%2]
 		return "SvOther", e.Deliver(&servicetypes.MsgWithdrawEarnedFees{Owner: prov.String(), Provider: prov.String()})
 	case "update_ctx", "pause", "start", "kill":
 		if len(m.ctxs[e]) == 0 {
 			return "SvOther", lib.Outcome{Kind: "rej", Err: "no request context yet"}
 		}
-		id := m.ctxs[e][len(m.ctxs[e])-1].String()
+		idb := m.ctxs[e][len(m.ctxs[e])-1]
+		id := idb.String()
 		cons := e.Actors[3].String()
 		switch st.K {
-		case "update_ctx":
-			return "SvOther", e.Deliver(&servicetypes.MsgUpdateRequestContext{RequestContextId: id, Consumer: cons,
+		case "update_ctx": // N = [cap timeout]
+			term := "SvOther"
+			if rc, ok := k.GetRequestContext(e.Ctx, idb); ok {
+				term = lib.App("SvUpdateCtx", lib.B(rc.State == servicetypes.COMPLETED), lib.ZI(n(0)), lib.ZI(n(1)), lib.Z(rc.Timeout),
+					lib.ZU(rc.RepeatedFrequency), lib.Z(0), lib.ZU(rc.BatchCounter))
+			}
+			return term, e.Deliver(&servicetypes.MsgUpdateRequestContext{RequestContextId: id, Consumer: cons,
 				ServiceFeeCap: sdk.NewCoins(sdk.NewCoin("stake", n(0))), Timeout: n(1).Int64()})
 		case "pause":
 			return "SvOther", e.Deliver(&servicetypes.MsgPauseRequestContext{RequestContextId: id, Consumer: cons})
@@ -371,17 +408,17 @@ func genSVat(r *lib.Rand, h *History, sweep int) {
 		case 4: // messages whose parameter use is not modelled: only the abort clause applies
 			switch r.Intn(9) {
 			case 0:
-				h.Steps = append(h.Steps, Step{"update_binding", []string{amt(0, 1), amt(1, 100000), amt(0, 120)}})
+				h.Steps = append(h.Steps, Step{"update_binding", []string{amt(0, 1), amt(0, 100000), amt(0, 120)}})
 			case 1:
 				h.Steps = append(h.Steps, Step{"disable", []string{amt(0, 1)}})
 			case 2:
-				h.Steps = append(h.Steps, Step{"enable", []string{amt(0, 1), amt(1, 100000)}})
+				h.Steps = append(h.Steps, Step{"enable", []string{amt(0, 1), amt(0, 100000)}})
 			case 3:
 				h.Steps = append(h.Steps, Step{"refund", []string{amt(0, 1)}})
 			case 4:
 				h.Steps = append(h.Steps, Step{"withdraw", []string{amt(0, 1)}})
 			case 5:
-				h.Steps = append(h.Steps, Step{"update_ctx", []string{amt(40, 300), amt(0, 120)}})
+				h.Steps = append(h.Steps, Step{"update_ctx", []string{amt(0, 300), amt(0, 12)}})
 			case 6:
 				h.Steps = append(h.Steps, Step{"pause", nil})
 			case 7:
@@ -390,7 +427,12 @@ func genSVat(r *lib.Rand, h *History, sweep int) {
 				h.Steps = append(h.Steps, Step{"kill", nil})
 			}
 		case 0:
-			h.Steps = append(h.Steps, Step{"call", []string{amt(1, 3), amt(40, 200), amt(5, 8)}})
+			if r.Chance(1, 3) { // repeated
+				to := r.Range(1, 6)
+				h.Steps = append(h.Steps, Step{"call", []string{amt(1, 3), amt(40, 200), fmt.Sprint(to), fmt.Sprint(to + r.Range(0, 3)), []string{"-1", "2", "5"}[r.Intn(3)]}})
+			} else {
+				h.Steps = append(h.Steps, Step{"call", []string{amt(1, 3), amt(40, 200), amt(5, 8)}})
+			}
 		case 1:
 			h.Steps = append(h.Steps, Step{"respond", nil})
 		case 2:
@@ -400,7 +442,8 @@ func genSVat(r *lib.Rand, h *History, sweep int) {
 		}
 	}
 	if sweep >= 0 { // one instance of every message whose parameter use is not modelled
-		h.Steps = append(h.Steps, Step{"call", []string{"1", "100", "1"}}, Step{"update_ctx", []string{"150", "1"}}, Step{"pause", nil}, Step{"start", nil},
+		h.Steps = append(h.Steps, Step{"bind", []string{"1", "10", "20000", "1", "4"}}, Step{"call", []string{"1", "100", "1", "3", "-1"}},
+			Step{"update_ctx", []string{"150", "1"}}, Step{"update_ctx", []string{"0", "0"}}, Step{"pause", nil}, Step{"start", nil},
 			Step{"update_binding", []string{"0", "1000", "1"}}, Step{"withdraw", []string{"0"}}, Step{"disable", []string{"0"}},
 			Step{"refund", []string{"0"}}, Step{"enable", []string{"0", "1000"}}, Step{"kill", nil})
 	}
